@@ -292,9 +292,29 @@ def run_shard(shard, tier, seed):
             def pre(obj, y=y):
                 pipe = ProcessingPipeline.from_dict({"name": "h", "priority": 1, "vars": {"P": ["x", "y*"]}, "transformations": [dict(copy.deepcopy(y), id="t0")]})
                 pipe.apply(obj)
-            roundtrip(res, "H", "rule", T12.rule_doc(rn), label=f"after/{tn}/{rn}", mech=("backslash-before-special" if rn == "backslash" else "after-" + tn.split("-")[0]), pre=pre)
+            roundtrip(res, "H", "rule", T12.rule_doc(rn), label=f"after/{tn}/{rn}", mech=_mech_h(tn, rn), pre=pre)
         res["samples"].append({"sub": "H", "transformations": len(T12.catalogue()), "rules": list(T12.RULES)})
     return res
+
+
+def _mech_h(tn, rn):
+    from checks import c12_transformations as T12
+
+    if rn == "backslash":
+        return "backslash-before-special"
+    mod = any("|" in str(k) for k in _item_keys(T12.rule_doc(rn)["detection"]))
+    return "after-" + tn.split("-")[0] + ("+modifiers" if mod else "")
+
+
+def _item_keys(d):
+    if isinstance(d, dict):
+        for k, v in d.items():
+            if k != "condition":
+                yield k
+                yield from _item_keys(v)
+    elif isinstance(d, list):
+        for x in d:
+            yield from _item_keys(x)
 
 
 def replay(case):
@@ -307,7 +327,7 @@ def replay(case):
         t = next(x for x in T12.catalogue() if x[0] == tn)
         def pre(obj):
             ProcessingPipeline.from_dict({"name": "h", "priority": 1, "vars": {"P": ["x", "y*"]}, "transformations": [dict(copy.deepcopy(t[1]), id="t0")]}).apply(obj)
-        roundtrip(res, "H", "rule", T12.rule_doc(rn), label=case["label"], mech=("backslash-before-special" if rn == "backslash" else "after-" + tn.split("-")[0]), pre=pre)
+        roundtrip(res, "H", "rule", T12.rule_doc(rn), label=case["label"], mech=_mech_h(tn, rn), pre=pre)
     else:
         roundtrip(res, case["sub"], case["kind"], case["doc"], context=case.get("context", ()), label=case.get("label", ""), mech="replay")
         for v in res["violations"]:
